@@ -130,15 +130,16 @@ func c09(rounds int) int {
 				}
 			}(i, ch)
 		}
+		own := append([]chan handler.Message{}, chans...)
 		core := appcore.New(&jsonconfig.Config{}, chans)
 		core.HandleMessagesUntilEOF(t0, bufio.NewReader(bytes.NewReader(stream)))
-		for _, ch := range chans {
+		for _, ch := range own {
 			if ch != nil {
 				close(ch)
 			}
 		}
 		wg.Wait()
-		for i, ch := range chans {
+		for i, ch := range own {
 			if ch != nil && !bytes.Equal(got[i], stream) {
 				fmt.Printf("auxrace C09: consumer %d received %d of %d bytes\n", i, len(got[i]), len(stream))
 				os.Exit(1)
